@@ -315,6 +315,8 @@ def run(rep):
                     for k in keep:
                         if k not in PAR_ORDER and k not in FREE_LIMITS:
                             th.parameters[k] = keep[k]
+                    if j == n_h // 2:
+                        th.parameters['rv'] = 0.0       # a parameter exactly at its declared lower limit (legal), in every run
                     # a non-zero sea E (all shipped sets have kaps = 0): the MB part of E is then non-zero
                     if 'kaps' in th.parameters and rng.random() < 0.7:
                         th.parameters['kaps'] = rng.uniform(0.3, 2.0)
